@@ -4,18 +4,21 @@
    Full-strength statement: at every moment, for every layout of the tree behind refs/notes/ai,
    each annotated object has exactly one note, and that note satisfies note_ok against its commit.
    Proved here:
-     (1) notes tree: for trees of fan-out depth <= 1 a batch write keeps `one entry per object`
-         and the layout, leaves the notes of other objects alone, and the code's lookup agrees with
-         git's reader.  For deeper trees the statement is FALSE of the faithful model
-         (C05_fanout2_refuted; known class Known_C05_fanout, replayed on the real binary).
+     (1) notes tree: for EVERY layout git's reader accepts (any fan-out depth) a batch write keeps
+         `one entry per object` and the code's lookup agrees with git's reader
+         (C05_batch_unique_any_layout, C05_lookup_complete_any_layout; they use the translated fact
+         gn_all_layouts: the writers delete and the reader probes every fan-out form).  The code
+         before that repair handled depth <= 1 only (C05_batch_unique, C05_lookup_complete hold for
+         both versions) and is refuted on deeper trees (C05_fanout2_refuted).
      (2) producers of the attestation section: for ANY line attributions (overlapping, unsorted,
          duplicated) both builders emit, per author, non-empty, sorted, non-overlapping and
          non-adjacent ranges whose line set is exactly the union of that author's intervals, never
          the author `human`, each author once; if all intervals lie in 1..line_count the emitted
          attestation passes the note_ok checks of its file.
-     (3) base_commit_sha remap: exactly the value of the field is replaced when the first
-         occurrence of the field literal is the metadata field; refuted when the attestation
-         section contains the literal (C05_remap_marker_refuted).
+     (3) base_commit_sha remap: exactly the value of the metadata field is replaced, whatever the
+         attestation section above the divider contains (uses the translated fact
+         gn_remap_after_divider); searching the whole note, as the code before that repair did, is
+         refuted on a note that names a file containing the literal (C05_remap_marker_fixed).
    The repository-wide invariant over operation sequences is decided by the system-level oracle
    (vlib/c05.py); the rebase / cherry-pick content replay violates it (known class, see there). *)
 From Coq Require Import List NArith Bool PeanoNat.
@@ -48,12 +51,30 @@ Theorem C05_batch_preserves_others : forall t es k,
 Proof. exact batch_preserves_others. Qed.
 Print Assumptions C05_batch_preserves_others.
 
+Theorem C05_all_layouts : gn_all_layouts = true.
+Proof. exact all_layouts. Qed.
+Print Assumptions C05_all_layouts.
+
+Theorem C05_batch_unique_any_layout : forall t es,
+  layout_ok t = true -> unique_keys t ->
+  layout_ok (batch_write t es) = true /\ unique_keys (batch_write t es).
+Proof. exact batch_unique_any_layout. Qed.
+Print Assumptions C05_batch_unique_any_layout.
+
+Theorem C05_lookup_complete_any_layout : forall t sha,
+  layout_ok t = true -> unique_keys t -> opt_list (lookup t sha) = git_lookup t sha.
+Proof. exact lookup_complete_any_layout. Qed.
+Print Assumptions C05_lookup_complete_any_layout.
+
+(* the code before the repair (two layouts only) on a tree holding ab/cd/ef, and the repaired code
+   on the same tree *)
 Theorem C05_fanout2_refuted :
   exists t sha b,
-    Known_C05_fanout t = true /\ unique_keysb t = true /\
-    unique_keysb (batch_write t [(sha, b)]) = false /\
-    length (git_lookup (batch_write t [(sha, b)]) sha) = 2%nat /\
-    git_lookup t sha <> [] /\ lookup t sha = None.
+    Known_C05_fanout t = true /\ layout_ok t = true /\ unique_keysb t = true /\
+    unique_keysb (batch_write_with false t [(sha, b)]) = false /\
+    length (git_lookup (batch_write_with false t [(sha, b)]) sha) = 2%nat /\
+    git_lookup t sha <> [] /\ lookup_with false t sha = None /\
+    unique_keysb (batch_write_with true t [(sha, b)]) = true /\ lookup_with true t sha = Some 1.
 Proof. exact fanout2_refuted. Qed.
 Print Assumptions C05_fanout2_refuted.
 
@@ -141,23 +162,29 @@ Proof. exact squash_fallback_refuted. Qed.
 Print Assumptions C05_squash_fallback_refuted.
 
 (* ---------------------------------------------------------------- (3) the remap *)
-Theorem C05_remap_base : forall pre ws1 ws2 v post target,
-  find_sub gn_remap_field (pre ++ gn_remap_field ++ ws1 ++ [58] ++ ws2 ++ [c_dq] ++ v ++ [c_dq] ++ post)
-    = Some (length pre) ->
+Theorem C05_remap_after_divider : gn_remap_after_divider = true.
+Proof. exact remap_after_divider. Qed.
+Print Assumptions C05_remap_after_divider.
+
+Theorem C05_remap_base : forall att pre ws1 ws2 v post target,
+  let meta := pre ++ gn_remap_field ++ ws1 ++ [58] ++ ws2 ++ [c_dq] ++ v ++ [c_dq] ++ post in
+  starts_with div_head (att ++ div_mid ++ meta) = false ->
+  find_sub div_mid (att ++ div_mid ++ meta) = Some (length att) ->
+  find_sub gn_remap_field meta = Some (length pre) ->
   forallb (fun c => mem c gn_remap_ws) ws1 = true ->
   forallb (fun c => mem c gn_remap_ws) ws2 = true ->
   forallb (fun c => negb (c =? 92) && negb (c =? c_dq)) v = true ->
-  try_remap (pre ++ gn_remap_field ++ ws1 ++ [58] ++ ws2 ++ [c_dq] ++ v ++ [c_dq] ++ post) target
-  = Some (pre ++ gn_remap_field ++ ws1 ++ [58] ++ ws2 ++ [c_dq] ++ target ++ [c_dq] ++ post).
+  try_remap (att ++ div_mid ++ meta) target
+  = Some (att ++ div_mid ++ pre ++ gn_remap_field ++ ws1 ++ [58] ++ ws2 ++ [c_dq] ++ target ++ [c_dq] ++ post).
 Proof. exact remap_exact. Qed.
 Print Assumptions C05_remap_base.
 
-Theorem C05_remap_marker_refuted :
-  exists note target expected,
-    try_remap note target <> Some expected /\ try_remap note target <> None
-    /\ note = w_remap_note /\ expected = w_remap_expected.
-Proof. exact remap_marker_refuted. Qed.
-Print Assumptions C05_remap_marker_refuted.
+Theorem C05_remap_marker_fixed :
+  try_remap w_remap_note w_remap_target = Some w_remap_expected
+  /\ try_remap_with false w_remap_note w_remap_target <> Some w_remap_expected
+  /\ try_remap_with false w_remap_note w_remap_target <> None.
+Proof. exact remap_marker_fixed. Qed.
+Print Assumptions C05_remap_marker_fixed.
 
 Theorem C05_gen_constants :
   gn_fanout_split = 2%nat /\ gn_batch_cmds = [0; 1; 2] /\ gn_lookup_order = [0; 1]
